@@ -523,16 +523,17 @@ def weight_value(wd, cx):
 
 
 def dist_support_contains(s, v, cx):
+    """listed with a non-zero weight and not named by any zero-weight entry"""
+    hit = False
     for ent in s["w"]:
-        if weight_value(ent["w"], cx) <= 0:
-            continue
         val = ent["v"]
-        if isinstance(val, (list, tuple)):
-            if val[0] <= v <= val[1]:
-                return True
-        elif v == val:
-            return True
-    return False
+        inside = (val[0] <= v <= val[1]) if isinstance(val, (list, tuple)) else (v == val)
+        if not inside:
+            continue
+        if weight_value(ent["w"], cx) <= 0:
+            return False
+        hit = True
+    return hit
 
 
 def dyn_holds(e, cx):
